@@ -306,6 +306,8 @@ pub fn run(s: &mut Session) {
          with a 0-110 ms sleep between rounds. Classes: single-dispatch (1 runtime) / concurrent-dispatch (>=2). Non-trivial = a round (or the first rounds of \
          all runtimes together) has more jobs than the limit, or a gap >= 2x idle timeout is followed by another round; distinct = distinct serialised case.",
     );
+    // a process abort (double panic in a Drop, poisoned lock) while a case runs is a verdict about that case
+    p.crash_guard = true;
     p.quick_cases = 240;
     p.thorough_cases = 6000;
     p.replay_repeats = 30;
